@@ -24,7 +24,7 @@ ExtraOf(k, salt) == LET n == (k * 3 + salt) % 8 IN [z |-> n % 2 = 1, mark |-> (n
 Salt == Len(Stream(reqs)) + Cardinality(cuts)
 Emit == Quiescent =>
    PrintT(ToJson([mode |-> MODE,
-                  reqs |-> [k \in DOMAIN reqs |-> [h |-> reqs[k].h, b |-> reqs[k].b, close |-> reqs[k].close,
+                  reqs |-> [k \in DOMAIN reqs |-> [h |-> reqs[k].h, b |-> reqs[k].b, close |-> reqs[k].close, bad |-> reqs[k].bad,
                                                      z |-> ExtraOf(k, Salt).z, mark |-> ExtraOf(k, Salt).mark, many |-> ExtraOf(k, Salt).many]],
                   cuts |-> SetToSortSeq(cuts, <),
                   model |-> [resp |-> [i \in DOMAIN resp |-> resp[i].k], dropped |-> dropped, fin |-> pc]]))
